@@ -310,7 +310,7 @@ class Check:
         self.known = [k for k in load_known_findings().get("findings", []) if k.get("property") == pid]
 
     def known_for(self, obligation):
-        return [k for k in self.known if k.get("obligation") == obligation]
+        return [k for k in self.known if k.get("obligation") == obligation or re.fullmatch(k.get("obligation", ""), obligation)]
 
     def add(self, oid, status, engine, seconds=0.0, detail=None, queries=1, nontrivial=True):
         """status: holds | violated | known | inconclusive"""
